@@ -10,6 +10,7 @@ and agree; after every deactivation the attribute must be what the model says.""
 import asyncio
 import sys
 import types
+import zlib
 from unittest import mock as umock
 
 from .. import real, gen
@@ -47,10 +48,22 @@ class Cls(object):
     def smeth(a, b=0):
         return ("orig", "smeth", a, b)
 
-    tag = "inst"
+    def __init__(self, tag="inst"):
+        self.tag = tag
+
+    # instances are equal by key (here: all of them), like value objects
+    def __eq__(self, other):
+        return isinstance(other, Cls)
+
+    def __ne__(self, other):
+        return not isinstance(other, Cls)
+
+    def __hash__(self):
+        return 7
 
 attr = ("orig", "attr")
-obj = Cls()
+obj = Cls("inst")
+obj2 = Cls("inst2")
 '''
     exec(compile(src, MODNAME + ".py", "exec"), m.__dict__)
     sys.modules[MODNAME] = m
@@ -71,6 +84,14 @@ class CallableObj(object):
 
     def __call__(self, *args, **kw):
         return ("repl", "callable", self.n, args, tuple(sorted(kw.items())))
+
+
+class RaisingCallable(object):
+    def __init__(self, n):
+        self.n = n
+
+    def __call__(self, *args, **kw):
+        raise SimError("repl-raises:%s" % (self.n,))
 
 
 class FutureReturning(object):
@@ -123,7 +144,27 @@ class C19(object):
                     motif.append(["call", t, rng.choice(["sync", "value", "yield", "asyncio"]), rng.randint(0, 9), None])
             motif.append(["stopall"])
             top = motif + top if rng.random() < 0.5 else top + motif
-        return {"ops": top, "style": rng.choice(["patch", "patch.object"]), "prio": gen.gen_prio(rng, 2)}
+        case = {"ops": top, "style": rng.choice(["patch", "patch.object"]), "prio": gen.gen_prio(rng, 2)}
+
+        def post(ops, salt):
+            for i, op in enumerate(ops):
+                d = zlib.crc32(repr((salt, i, op[:4])).encode())
+                if op[0] in ("with", "deco", "start"):
+                    if op[2] == "callable" and d % 3 == 0:
+                        op[2] = "callable_raising"   # a replacement that raises
+                    elif op[2] == "default" and d % 3 == 0:
+                        op[2] = "default_raising"    # a default mock with a raising side_effect
+                    if op[0] != "start":
+                        post(op[4], d)
+                        if op[1] == "meth" and d % 2 == 0:
+                            # the patched method is called through two instances that compare equal
+                            op[4][:0] = [["call", "meth", "sync", 0, None], ["call", "meth", "sync", 2, None],
+                                         ["call", "meth", "value", 2, None]]
+                elif op[0] == "call" and op[2] in ("yield", "asyncio") and d % 4 == 0:
+                    # the yielding task is itself driven through .asyncio()
+                    op[2] = "yield_in_asyncio"
+        post(case["ops"], 0)
+        return case
 
     def sample(self, case, r):
         return case
@@ -176,6 +217,8 @@ class C19(object):
                 args = [Other(serial).repl]
             elif kind == "callable":
                 args = [CallableObj(serial)]
+            elif kind == "callable_raising":
+                args = [RaisingCallable(serial)]
             elif kind == "returns_future":
                 args = [FutureReturning(serial)]
             elif kind == "new_callable":
@@ -188,6 +231,10 @@ class C19(object):
             name = "%s.%s" % (MODNAME, t) if t in ("fn", "attr") else "%s.Cls.%s" % (MODNAME, t)
             return amock.patch(name, *args, **kw)
 
+        def inst_tag(a, b):
+            # methods are looked up on one of two instances that compare equal
+            return "inst2" if (a + (b or 0)) % 3 == 2 else "inst"
+
         def expect_call(t, a, b):
             """What calling target t with (a[, b]) must return under the model."""
             st = stacks[t]
@@ -196,7 +243,7 @@ class C19(object):
                 if t == "fn":
                     return ("V", ("orig", "fn", a, bb))
                 if t == "meth":
-                    return ("V", ("orig", "meth", "inst", a, bb))
+                    return ("V", ("orig", "meth", inst_tag(a, b), a, bb))
                 if t == "cmeth":
                     return ("V", ("orig", "cmeth", "Cls", a, bb))
                 if t == "smeth":
@@ -206,9 +253,13 @@ class C19(object):
             pos = (a,) if b is None else (a, b)
             if kind == "default":
                 return ("M", obj)
+            if kind == "default_raising":
+                return ("E", "side-effect:%s" % serial)
+            if kind == "callable_raising":
+                return ("E", "repl-raises:%s" % serial)
             if kind == "function":
                 if t == "meth":
-                    return ("V", ("repl", "function", serial, ("inst", a, bb)))
+                    return ("V", ("repl", "function", serial, (inst_tag(a, b), a, bb)))
                 if t == "cmeth":
                     return ("V", ("repl", "function", serial, ("Cls", a, bb)))
                 return ("V", ("repl", "function", serial, (a, bb)))
@@ -228,7 +279,8 @@ class C19(object):
                 # not callable: identity / value only
                 cur = current(t)
                 want = originals[t] if not stacks[t] else stacks[t][-1][2]
-                if stacks[t] and stacks[t][-1][0] in ("default", "new_callable", "callable", "callable_shared", "returns_future", "bound", "function"):
+                if stacks[t] and stacks[t][-1][0] in ("default", "new_callable", "callable", "callable_shared", "returns_future", "bound", "function",
+                                                      "default_raising", "callable_raising"):
                     return
                 if want is not None and cur is not want and cur != want:
                     out.append(("installed", "target %s holds %r, the model says %r" % (t, cur, want)))
@@ -236,7 +288,14 @@ class C19(object):
             via_instance = t == "meth" or (t in ("smeth", "cmeth") and (a + (b or 0)) % 2 == 1)
             if via_instance and t != "meth":
                 probes["static_or_class_method_via_instance"] = probes.get("static_or_class_method_via_instance", 0) + 1
-            tgt = M.fn if t == "fn" else getattr(M.obj if via_instance else M.Cls, t)
+            the_obj = M.obj2 if (t == "meth" and inst_tag(a, b) == "inst2") else M.obj
+            if the_obj is M.obj2:
+                probes["method_via_second_equal_instance"] = probes.get("method_via_second_equal_instance", 0) + 1
+            tgt = M.fn if t == "fn" else getattr(the_obj if via_instance else M.Cls, t)
+            if conv == "yield_in_asyncio" and t == "fn" and stacks[t] and stacks[t][-1][0] == "function":
+                # (a plain-function replacement of a module function refuses to be called in
+                # asyncio mode on the unchanged tree; the statement lists the conventions apart)
+                conv = "asyncio"
             pos = (a,) if b is None else (a, b)
             probes["conv:" + conv] = probes.get("conv:" + conv, 0) + 1
             try:
@@ -272,6 +331,10 @@ class C19(object):
                 raise
             except BaseException as e:
                 got = ("EXC", type(e).__name__, str(e)[:100])
+            if exp[0] == "E":
+                if not (isinstance(got, tuple) and got[:2] == ("EXC", "SimError") and got[2] == exp[1]):
+                    out.append(("reach-replacement", "%s via %s: the replacement raises %s; this convention gave %r" % (t, conv, exp[1], got)))
+                return
             if exp[0] == "F":
                 # every convention must deliver the very result of the replacement: a ConstFuture
                 if not isinstance(got, A.ConstFuture) or got.value() != exp[1]:
@@ -313,6 +376,8 @@ class C19(object):
             else:
                 obj = p.__enter__()
             stacks[t].append((kind, serial, current(t)))
+            if kind == "default_raising":
+                obj.side_effect = SimError("side-effect:%s" % serial)
             if kind == "noncallable" and current(t) != ("noncallable", serial):
                 out.append(("installed", "non-callable replacement for %s not installed as is: %r" % (t, current(t))))
             probes["repl:" + kind] = probes.get("repl:" + kind, 0) + 1
@@ -330,7 +395,9 @@ class C19(object):
                     p = make_patcher(t, kind, serial)
                     if name == "with":
                         try:
-                            with p:
+                            with p as pobj:
+                                if kind == "default_raising":
+                                    pobj.side_effect = SimError("side-effect:%s" % serial)
                                 stacks[t].append((kind, serial, current(t)))
                                 probes["repl:" + kind] = probes.get("repl:" + kind, 0) + 1
                                 probes["style:with"] = probes.get("style:with", 0) + 1
@@ -343,6 +410,8 @@ class C19(object):
                         stacks[t].pop()
                     else:
                         def fn(*margs):
+                            if kind == "default_raising":
+                                current(t).side_effect = SimError("side-effect:%s" % serial)
                             stacks[t].append((kind, serial, current(t)))
                             probes["repl:" + kind] = probes.get("repl:" + kind, 0) + 1
                             probes["style:decorator"] = probes.get("style:decorator", 0) + 1
